@@ -678,3 +678,27 @@ package resolver
 //@   assert at call net/netip.AddrPortFrom#2: arg0 == lastret("middleware/resolver.usableAddr#2") && arg1 == 53
 //@   assert at call middleware/resolver.usableAddr#1: arg0 == v6.AAAA
 //@   assert at call middleware/resolver.usableAddr#2: arg0 == v4.A
+
+//@ # ---- C08, KNOWN FINDING (recorded, not repaired - see /verif/known_findings.json): referral glue is stored in
+//@ # glueV4/glueV6 with no expiry and is consulted BEFORE the nameserver's address is resolved; once the parent
+//@ # re-delegates and the lease ends, the former child's address is still attached to later delegations naming the same
+//@ # host. The obligation: a cached glue address is returned only after a clock was consulted (an entry that can expire)
+//@ func (*Resolver).lookupNSAddrV4
+//@   abstract
+//@   nosafety all pre
+//@   assert at return#1: calls("time.Now") + calls("time.Until") + calls("time.Since") >= 1
+//@ func (*Resolver).lookupNSAddrV6
+//@   abstract
+//@   nosafety all pre
+//@   assert at return#1: calls("time.Now") + calls("time.Until") + calls("time.Since") >= 1
+
+//@ # ---- C08, KNOWN FINDING (recorded, not repaired - see /verif/known_findings.json): "every answer ... learned through
+//@ # the old delegation has stopped being served by [the end of the lease]" also covers the zone-wide SERVFAIL an RFC 9520
+//@ # failure entry answers with; the entry must therefore be bounded by the request tree's delegation cut. The recorder
+//@ # hands the store a question and a zone and nothing else: the entry lives for its own backoff (5 s doubling up to
+//@ # 5 min) whatever the lease of the delegation the failure was learned through. The obligation: a zone failure is
+//@ # recorded only together with the request tree's cut
+//@ func (*Resolver).recordResolutionZoneFailure
+//@   abstract
+//@   nosafety all pre
+//@   assert at call (middleware.ResolutionFailureStore).RecordZoneFailure#1: calls("middleware.ResponseMetaFrom") + calls("(*middleware.ResponseMeta).Cut") >= 1
